@@ -482,6 +482,8 @@ def g7_withdrawn_undeclared(rng, big=False):
     s['withdrawn'] = rng.sample(cands, min(nw, nc - 1))
     nu = rng.choice([0, 0, 1, 1, 2, 3])
     s['undeclared'] = rng.sample(cands, min(nu, nc))
+    if s['withdrawn'] and rng.random() < 0.3:   # a write-in line that was also withdrawn before the count
+        s['undeclared'] = sorted(set(s['undeclared']) | {s['withdrawn'][0]})
     if rng.random() < 0.3:      # ballots ranking only withdrawn candidates
         for w in s['withdrawn']:
             s['lines'].append((rng.randint(1, 3), [w]))
